@@ -383,7 +383,10 @@ class IndentationFitter(object):
         `self.fit_range` before the actual fitting.
         """
         model_key = self.fp["model_key"]
-        params_initial = self.fp["params_initial"]
+        # Work on a copy: the initial parameters are part of the fit
+        # settings (and may be the caller's object); scaling them in-place
+        # would accumulate over multiple passes and repeated fits.
+        params_initial = copy.deepcopy(self.fp["params_initial"])
         # modify contact point with gcf_k
         cpi = params_initial["contact_point"].value
         params_initial["contact_point"].set(value=cpi * self.fp["gcf_k"])
